@@ -52,6 +52,10 @@ type Op struct {
 // or two chained batches inside the same version (IO: empty -> i -> io).
 type Version struct {
 	Batches [][]Op `json:"batches"`
+	// Fork: the batches are competing candidates committed from the same parent root in this
+	// version (instead of a chain); candidate Pick (mod their number) is finalized.
+	Fork bool `json:"fork,omitempty"`
+	Pick int  `json:"pick,omitempty"`
 }
 
 type Scenario struct {
@@ -479,6 +483,169 @@ func runScenario(sc Scenario) (res runResult) {
 	prev := storedRoot{ver: 0, hash: emptyHash}
 	var db2roots []storedRoot // roots stored in the second backend (recent ones)
 	pairIdx := 0
+	type qres struct {
+		status string // served | refused | error
+		log    []entry
+		err    error
+	}
+	type cand struct {
+		start, end storedRoot
+		ops        []Op
+		committed  []entry // what Tree.Commit returned, sorted by key
+		seq        int     // batches opened before this one for the same (version, type) in the first database
+		skip       bool    // same root as the parent or as an earlier candidate
+		oldKV      []kv
+		newKV      []kv
+		idx        int
+		queries    []string // Coq: (backend, seq, fstate)
+		served     []string // Coq: option log
+		coqAtt     []string
+		coqRes     []string
+		db2coq     []string
+		applied    bool
+		emit       bool
+	}
+	coqBackend := map[string]string{"badger": "Badger", "pathbadger": "PathBadger"}[sc.Backend]
+	query := func(startRoot, endRoot node.Root) qres {
+		it, err := b1.impl.GetDiff(ctx, &api.GetDiffRequest{StartRoot: startRoot, EndRoot: endRoot})
+		var log []entry
+		if err == nil {
+			log, err = foldLog(it)
+		}
+		switch {
+		case err == nil:
+			return qres{status: "served", log: sortLog(log)}
+		case errors.Is(err, nodedb.ErrWriteLogNotFound) || errors.Is(err, nodedb.ErrRootNotFound):
+			return qres{status: "refused", err: err}
+		}
+		return qres{status: "error", err: err}
+	}
+	// judge one answer of the database (S) and record it for the model (K)
+	judge := func(p *cand, q qres, fstate string) {
+		p.queries = append(p.queries, fmt.Sprintf("(%s, %d, %s)", coqBackend, p.seq, fstate))
+		res.hist["served:"+fstate+":"+q.status]++
+		switch q.status {
+		case "served":
+			p.served = append(p.served, "(Some "+coqLog(q.log)+")")
+			seenKey := map[string]bool{}
+			for _, e := range q.log {
+				if seenKey[string(e.k)] {
+					viol("pair %d (%s): served write log has key %x twice", p.idx, fstate, e.k)
+				}
+				seenKey[string(e.k)] = true
+			}
+			if got := applyRef(p.oldKV, q.log); !kvEqual(got, p.newKV) {
+				viol("pair %d (%s): served write log applied to the start contents does not give the end contents", p.idx, fstate)
+			} else if !logEqual(q.log, p.committed) {
+				viol("pair %d (%s): the served write log differs from the one Commit returned", p.idx, fstate)
+			}
+		case "refused":
+			p.served = append(p.served, "None")
+			// refusal is allowed only where the code documents it: nil logs are not stored; pathbadger
+			// does not serve pending roots with a non-zero sequence number; roots that lost
+			// finalization are removed
+			allowed := len(p.committed) == 0 || fstate == "FinalizedOther" ||
+				(fstate == "Pending" && sc.Backend == "pathbadger" && p.seq != 0)
+			if !allowed {
+				viol("pair %d (%s): no write log served for a stored pair of consecutive roots: %v", p.idx, fstate, q.err)
+			}
+		default:
+			what := fmt.Sprintf("pair %d: the database cannot serve the write log of a stored pair of consecutive roots (log of %d entries at commit): %v", p.idx, len(p.committed), q.err)
+			// recognised defect: pathbadger, an entry re-inserting the unchanged value of a key
+			sameValue := false
+			for _, e := range p.committed {
+				if !e.del {
+					for _, o := range p.oldKV {
+						if bytes.Equal(o.k, e.k) && bytes.Equal(o.v, e.v) {
+							sameValue = true
+						}
+					}
+				}
+			}
+			if sc.Backend == "pathbadger" && sameValue && strings.Contains(q.err.Error(), "mkvs/pathbadger: failed to fetch node") {
+				res.findings = append(res.findings, finding{keyEmbeddedLeaf, what})
+			} else {
+				viol("%s", what)
+			}
+			p.emit = false // no observation the model could be compared with
+		}
+	}
+	// Apply attempts on the second database for one pair; returns false when it cannot follow
+	follow := func(p *cand, served []entry) bool {
+		startRoot, endRoot := mkRoot(p.start.ver, p.start.hash), mkRoot(p.end.ver, p.end.hash)
+		res.hist[fmt.Sprintf("loglen:%d", min(len(served), 8))]++
+		r := prng.New(sc.Seed*1000003 + uint64(p.idx))
+		atts := corruptions(r, served, p.oldKV, p.newKV, startRoot.Version, endRoot.Version, startRoot.Hash, endRoot.Hash,
+			func(k string) { res.hist["attempt:"+k]++ })
+		for _, sr := range db2roots {
+			p.db2coq = append(p.db2coq, fmt.Sprintf("(%s, %s)", coqRoot(sr.ver, sr.kvs), coqKVs(sr.kvs)))
+		}
+		for ai, a := range atts {
+			dst := mkRoot(a.dstVer, a.dstHash)
+			hadBefore := ndb2.HasRoot(dst)
+			err := b2.impl.Apply(ctx, &api.ApplyRequest{
+				Namespace: testNs, RootType: rootType,
+				SrcRound: startRoot.Version, SrcRoot: startRoot.Hash,
+				DstRound: a.dstVer, DstRoot: a.dstHash,
+				WriteLog: toAPILog(a.wl),
+			})
+			cls := applyClass(err)
+			has := ndb2.HasRoot(dst)
+			res.hist["result:"+a.kind+":"+cls]++
+			if cls == "AOther" {
+				res.hist["other-error:"+err.Error()]++
+			}
+			p.coqAtt = append(p.coqAtt, fmt.Sprintf("mkAttempt %s %s %s", coqRoot(startRoot.Version, p.oldKV), coqRoot(a.dstVer, a.dstKV), coqLog(a.wl)))
+			p.coqRes = append(p.coqRes, fmt.Sprintf("(%s, %s)", cls, coqout.Bool(has)))
+
+			// S: the property, judged on maps only
+			follows := a.dstVer == startRoot.Version || a.dstVer == startRoot.Version+1
+			result := applyRef(p.oldKV, a.wl)
+			good := kvEqual(result, a.dstKV)
+			switch {
+			case err == nil && !has:
+				viol("pair %d attempt %d (%s): Apply succeeded but the expected root is not stored", p.idx, ai, a.kind)
+			case err == nil && follows && !hadBefore && !good:
+				viol("pair %d attempt %d (%s): a log whose result differs from the announced contents was accepted and the expected root is now stored", p.idx, ai, a.kind)
+			case err != nil && follows && !hadBefore && has:
+				viol("pair %d attempt %d (%s): Apply failed (%v) but the expected root appeared in the database", p.idx, ai, a.kind, err)
+			case err != nil && follows && good:
+				viol("pair %d attempt %d (%s): a log that produces exactly the announced contents was rejected: %v", p.idx, ai, a.kind, err)
+			}
+			if err == nil && has {
+				got, rerr := readContents(ctx, ndb2, dst)
+				if rerr != nil {
+					viol("pair %d attempt %d (%s): stored root unreadable: %v", p.idx, ai, a.kind, rerr)
+				} else if !kvEqual(got, a.dstKV) {
+					viol("pair %d attempt %d (%s): the root stored after Apply has other contents than announced", p.idx, ai, a.kind)
+				}
+			}
+		}
+		if !ndb2.HasRoot(endRoot) {
+			viol("pair %d: the served write log did not take the second database to the end root", p.idx)
+			return false
+		}
+		p.applied = true
+		db2roots = append(db2roots, storedRoot{ver: endRoot.Version, kvs: p.newKV, hash: endRoot.Hash})
+		if len(db2roots) > 8 {
+			db2roots = db2roots[len(db2roots)-8:]
+		}
+		return true
+	}
+	// keep the second database following with the log Commit returned (no observation recorded)
+	followSilently := func(p *cand) bool {
+		startRoot, endRoot := mkRoot(p.start.ver, p.start.hash), mkRoot(p.end.ver, p.end.hash)
+		if aerr := b2.impl.Apply(ctx, &api.ApplyRequest{Namespace: testNs, RootType: rootType,
+			SrcRound: startRoot.Version, SrcRoot: startRoot.Hash, DstRound: endRoot.Version, DstRoot: endRoot.Hash,
+			WriteLog: toAPILog(p.committed)}); aerr != nil {
+			viol("pair %d: the log returned by Commit is rejected by Apply: %v", p.idx, aerr)
+			return false
+		}
+		p.applied = true
+		db2roots = append(db2roots, storedRoot{ver: endRoot.Version, kvs: p.newKV, hash: endRoot.Hash})
+		return true
+	}
+
 	for vi, ver := range sc.Versions {
 		version := uint64(vi + 1)
 		start := prev
@@ -486,15 +653,8 @@ func runScenario(sc Scenario) (res runResult) {
 			// IO trees are rebuilt from the empty root in every version
 			start = storedRoot{ver: version, hash: emptyHash}
 		}
-		var last storedRoot
-		var finalize1, finalize2 []node.Root
-		type done struct {
-			start, end storedRoot
-			ops        []Op
-			committed  []entry // what Tree.Commit returned, sorted by key
-		}
-		var pairs []done
-		for _, ops := range ver.Batches {
+		var cands []*cand
+		for bi, ops := range ver.Batches {
 			startRoot := mkRoot(start.ver, start.hash)
 			t := mkvs.NewWithRoot(nil, ndb1, startRoot)
 			for _, o := range ops {
@@ -520,31 +680,41 @@ func runScenario(sc Scenario) (res runResult) {
 			for _, e := range cwl {
 				committed = append(committed, entry{k: e.Key, v: e.Value, del: e.Value == nil})
 			}
-			pairs = append(pairs, done{start: start, end: end, ops: ops, committed: sortLog(committed)})
-			start = end
-			last = end
-		}
-		finalize1 = []node.Root{mkRoot(last.ver, last.hash)}
-		if err := ndb1.Finalize(finalize1); err != nil {
-			panic(fmt.Errorf("finalize db1: %w", err))
-		}
-
-		for _, p := range pairs {
 			pairIdx++
-			startRoot, endRoot := mkRoot(p.start.ver, p.start.hash), mkRoot(p.end.ver, p.end.hash)
-			if startRoot.Version == endRoot.Version && startRoot.Hash.Equal(&endRoot.Hash) {
+			p := &cand{start: start, end: end, ops: ops, committed: sortLog(committed), seq: bi, idx: pairIdx, emit: true}
+			if start.ver == end.ver && start.hash.Equal(&end.hash) {
+				p.skip = true
+			}
+			for _, q := range cands {
+				if q.end.hash.Equal(&end.hash) {
+					p.skip = true // the same root again: nothing new is stored for it
+				}
+			}
+			if p.skip {
 				res.hist["pair:skipped-same-root"]++
+			}
+			cands = append(cands, p)
+			if !ver.Fork {
+				start = end // chain inside the version (IO: empty -> i -> io)
+			}
+		}
+		pick := len(cands) - 1
+		if ver.Fork {
+			pick = ver.Pick % len(cands)
+			res.hist[fmt.Sprintf("forks:%d", len(cands))]++
+		}
+		// contents, read back through the real tree before anything is discarded
+		for _, p := range cands {
+			if p.skip {
 				continue
 			}
-			oldKV, err := readContents(ctx, ndb1, startRoot)
-			if err != nil {
+			var err error
+			if p.oldKV, err = readContents(ctx, ndb1, mkRoot(p.start.ver, p.start.hash)); err != nil {
 				panic(fmt.Errorf("read old: %w", err))
 			}
-			newKV, err := readContents(ctx, ndb1, endRoot)
-			if err != nil {
+			if p.newKV, err = readContents(ctx, ndb1, mkRoot(p.end.ver, p.end.hash)); err != nil {
 				panic(fmt.Errorf("read new: %w", err))
 			}
-			// reference batch semantics on maps
 			var refLog []entry
 			for _, o := range p.ops {
 				k, _ := hex.DecodeString(o.Key)
@@ -555,140 +725,75 @@ func runScenario(sc Scenario) (res runResult) {
 					refLog = append(refLog, entry{k: k, del: true})
 				}
 			}
-			refNew := applyRef(oldKV, refLog)
-			if !kvEqual(refNew, newKV) {
-				viol("pair %d: contents at the end root differ from the batch applied to the start contents", pairIdx)
+			if !kvEqual(applyRef(p.oldKV, refLog), p.newKV) {
+				viol("pair %d: contents at the end root differ from the batch applied to the start contents", p.idx)
 			}
-
-			// --- the served write log ---
-			var served []entry
-			it, err := b1.impl.GetDiff(ctx, &api.GetDiffRequest{StartRoot: startRoot, EndRoot: endRoot})
-			if err == nil {
-				served, err = foldLog(it)
-			}
-			switch {
-			case err == nil:
-				res.hist["served:ok"]++
-			case errors.Is(err, nodedb.ErrWriteLogNotFound) && len(p.committed) == 0:
-				// a batch with an empty log stores no log at all (commit.go:99-114 leaves it nil;
-				// both backends skip nil logs); nothing is served, nothing to apply
-				res.hist["served:notfound-empty-log"]++
-				served = nil
-			default:
-				what := fmt.Sprintf("pair %d: the database cannot serve the write log of a stored pair of consecutive roots (log of %d entries at commit): %v", pairIdx, len(p.committed), err)
-				res.hist["served:error"]++
-				// recognised defect: pathbadger, an entry re-inserting the unchanged value of a key
-				sameValue := false
-				for _, e := range p.committed {
-					if !e.del {
-						for _, o := range oldKV {
-							if bytes.Equal(o.k, e.k) && bytes.Equal(o.v, e.v) {
-								sameValue = true
-							}
-						}
+		}
+		// competing candidates: ask for every one of them before finalization
+		if ver.Fork {
+			for _, p := range cands {
+				if p.skip {
+					continue
+				}
+				q := query(mkRoot(p.start.ver, p.start.hash), mkRoot(p.end.ver, p.end.hash))
+				judge(p, q, "Pending")
+				if q.status == "served" {
+					if !follow(p, q.log) {
+						return res
 					}
 				}
-				if sc.Backend == "pathbadger" && sameValue && strings.Contains(err.Error(), "mkvs/pathbadger: failed to fetch node") {
-					res.findings = append(res.findings, finding{keyEmbeddedLeaf, what})
-				} else {
-					viol("%s", what)
-				}
-				// keep the second database following with the log Commit returned
-				if aerr := b2.impl.Apply(ctx, &api.ApplyRequest{Namespace: testNs, RootType: rootType,
-					SrcRound: startRoot.Version, SrcRoot: startRoot.Hash, DstRound: endRoot.Version, DstRoot: endRoot.Hash,
-					WriteLog: toAPILog(p.committed)}); aerr != nil {
-					viol("pair %d: the log returned by Commit is rejected by Apply: %v", pairIdx, aerr)
-					return res
-				}
-				db2roots = append(db2roots, storedRoot{ver: endRoot.Version, kvs: newKV, hash: endRoot.Hash})
+			}
+		}
+		fin := []node.Root{mkRoot(cands[pick].end.ver, cands[pick].end.hash)}
+		if err := ndb1.Finalize(fin); err != nil {
+			panic(fmt.Errorf("finalize db1: %w", err))
+		}
+		for i, p := range cands {
+			if p.skip {
 				continue
 			}
-			served = sortLog(served)
-			seenKey := map[string]bool{}
-			for _, e := range served {
-				if seenKey[string(e.k)] {
-					viol("pair %d: served write log has key %x twice", pairIdx, e.k)
-				}
-				seenKey[string(e.k)] = true
+			fstate := "FinalizedThis"
+			if ver.Fork && !p.end.hash.Equal(&cands[pick].end.hash) {
+				fstate = "FinalizedOther"
 			}
-			if !logEqual(served, p.committed) {
-				viol("pair %d: the served write log differs from the one Commit returned", pairIdx)
-			}
-			if got := applyRef(oldKV, served); !kvEqual(got, newKV) {
-				viol("pair %d: served write log applied to the start contents does not give the end contents", pairIdx)
-			}
-			res.hist[fmt.Sprintf("loglen:%d", min(len(served), 8))]++
-
-			// --- second backend ---
-			r := prng.New(sc.Seed*1000003 + uint64(pairIdx))
-			atts := corruptions(r, served, oldKV, newKV, startRoot.Version, endRoot.Version, startRoot.Hash, endRoot.Hash,
-				func(k string) { res.hist["attempt:"+k]++ })
-			var coqAtt, coqRes []string
-			var db2coq []string
-			for _, sr := range db2roots {
-				db2coq = append(db2coq, fmt.Sprintf("(%s, %s)", coqRoot(sr.ver, sr.kvs), coqKVs(sr.kvs)))
-			}
-			for ai, a := range atts {
-				dst := mkRoot(a.dstVer, a.dstHash)
-				hadBefore := ndb2.HasRoot(dst)
-				err := b2.impl.Apply(ctx, &api.ApplyRequest{
-					Namespace: testNs, RootType: rootType,
-					SrcRound: startRoot.Version, SrcRoot: startRoot.Hash,
-					DstRound: a.dstVer, DstRoot: a.dstHash,
-					WriteLog: toAPILog(a.wl),
-				})
-				cls := applyClass(err)
-				has := ndb2.HasRoot(dst)
-				res.hist["result:"+a.kind+":"+cls]++
-				if cls == "AOther" {
-					res.hist["other-error:"+err.Error()]++
-				}
-				coqAtt = append(coqAtt, fmt.Sprintf("mkAttempt %s %s %s", coqRoot(startRoot.Version, oldKV), coqRoot(a.dstVer, a.dstKV), coqLog(a.wl)))
-				coqRes = append(coqRes, fmt.Sprintf("(%s, %s)", cls, coqout.Bool(has)))
-
-				// S: the property, judged on maps only
-				follows := a.dstVer == startRoot.Version || a.dstVer == startRoot.Version+1
-				result := applyRef(oldKV, a.wl)
-				good := kvEqual(result, a.dstKV)
+			q := query(mkRoot(p.start.ver, p.start.hash), mkRoot(p.end.ver, p.end.hash))
+			judge(p, q, fstate)
+			needed := !ver.Fork || i == pick
+			if needed && !p.applied {
 				switch {
-				case err == nil && !has:
-					viol("pair %d attempt %d (%s): Apply succeeded but the expected root is not stored", pairIdx, ai, a.kind)
-				case err == nil && follows && !hadBefore && !good:
-					viol("pair %d attempt %d (%s): a log whose result differs from the announced contents was accepted and the expected root is now stored", pairIdx, ai, a.kind)
-				case err != nil && follows && !hadBefore && has:
-					viol("pair %d attempt %d (%s): Apply failed (%v) but the expected root appeared in the database", pairIdx, ai, a.kind, err)
-				case err != nil && follows && good:
-					viol("pair %d attempt %d (%s): a log that produces exactly the announced contents was rejected: %v", pairIdx, ai, a.kind, err)
-				}
-				if err == nil && has {
-					got, rerr := readContents(ctx, ndb2, dst)
-					if rerr != nil {
-						viol("pair %d attempt %d (%s): stored root unreadable: %v", pairIdx, ai, a.kind, rerr)
-					} else if !kvEqual(got, a.dstKV) {
-						viol("pair %d attempt %d (%s): the root stored after Apply has other contents than announced", pairIdx, ai, a.kind)
+				case q.status == "served":
+					if !follow(p, q.log) {
+						return res
+					}
+				case q.status == "refused" && len(p.committed) == 0:
+					if !follow(p, nil) { // an empty batch: the empty log is what there is to apply
+						return res
+					}
+				default:
+					if !followSilently(p) {
+						return res
 					}
 				}
 			}
-			if !ndb2.HasRoot(endRoot) {
-				viol("pair %d: the served write log did not take the second database to the end root", pairIdx)
-				return res
-			}
-			db2roots = append(db2roots, storedRoot{ver: endRoot.Version, kvs: newKV, hash: endRoot.Hash})
-			if len(db2roots) > 3 {
-				db2roots = db2roots[len(db2roots)-3:]
-			}
-
-			term := fmt.Sprintf("(let o : kvmap := %s in let n : kvmap := %s in\n (mkCase o %s %s %s,\n  mkObs %s n true %s))",
-				coqKVs(oldKV), coqKVs(newKV), coqOps(p.ops), coqout.List(db2coq), coqout.List(coqAtt),
-				coqLog(served), coqout.List(coqRes))
-			res.pairs = append(res.pairs, pairResult{coq: term, desc: map[string]any{"case": sc, "pair": pairIdx},
-				nontriv: len(served) >= 2, key: coqKVs(oldKV) + coqOps(p.ops)})
 		}
-		finalize2 = finalize1
-		if err := ndb2.Finalize(finalize2); err != nil {
+		for _, p := range cands {
+			if p.skip || !p.emit {
+				continue
+			}
+			term := fmt.Sprintf("(let o : kvmap := %s in let n : kvmap := %s in\n (mkCase o %s %s %s %s,\n  mkObs %s %s n true %s))",
+				coqKVs(p.oldKV), coqKVs(p.newKV), coqOps(p.ops), coqout.List(p.db2coq), coqout.List(p.coqAtt), coqout.List(p.queries),
+				coqLog(p.committed), coqout.List(p.served), coqout.List(p.coqRes))
+			res.pairs = append(res.pairs, pairResult{coq: term, desc: map[string]any{"case": sc, "pair": p.idx},
+				nontriv: len(p.committed) >= 2, key: coqKVs(p.oldKV) + coqOps(p.ops)})
+		}
+		if !ndb2.HasRoot(fin[0]) {
+			viol("version %d: the second database does not hold the finalized root", version)
+			return res
+		}
+		if err := ndb2.Finalize(fin); err != nil {
 			panic(fmt.Errorf("finalize db2: %w", err))
 		}
-		prev = last
+		prev = cands[pick].end
 	}
 	return res
 }
@@ -800,9 +905,50 @@ func genScenario(r *prng.R, idx int, count func(string)) Scenario {
 	}
 	nv := r.Range(3, 7)
 	cur := map[string][]byte{}
+	cp := func(m map[string][]byte) map[string][]byte {
+		c := map[string][]byte{}
+		for k, v := range m {
+			c[k] = v
+		}
+		return c
+	}
 	for v := 0; v < nv; v++ {
 		if sc.Type == "io" {
 			cur = map[string][]byte{}
+		}
+		if r.Chance(40) {
+			// 2-3 competing candidates from the same parent
+			count("fork-version")
+			n := r.Range(2, 3)
+			ver := Version{Fork: true, Pick: r.Intn(n)}
+			var maps []map[string][]byte
+			for j := 0; j < n; j++ {
+				m := cp(cur)
+				var ops []Op
+				if j > 0 && r.Chance(50) {
+					// same shape as the first candidate, other values
+					count("fork-value-variant")
+					for _, o := range ver.Batches[0] {
+						k, _ := hex.DecodeString(o.Key)
+						if o.K == "ins" {
+							v0, _ := hex.DecodeString(o.Val)
+							nv := otherVal(r, v0)
+							ops = append(ops, Op{K: "ins", Key: o.Key, Val: hx(nv)})
+							m[string(k)] = nv
+						} else {
+							ops = append(ops, o)
+							delete(m, string(k))
+						}
+					}
+				} else {
+					ops = genBatch(r, m, count)
+				}
+				ver.Batches = append(ver.Batches, ops)
+				maps = append(maps, m)
+			}
+			cur = maps[ver.Pick]
+			sc.Versions = append(sc.Versions, ver)
+			continue
 		}
 		ver := Version{Batches: [][]Op{genBatch(r, cur, count)}}
 		// pathbadger refuses child roots of IO roots ("roots of type 'io-root' cannot have
@@ -928,7 +1074,7 @@ func main() {
 	}
 	hdr := "From Verif Require Import Lib.Base WriteLog.Model.\n"
 	wb := coqout.NewWriter(*out, hdr, "run_case", "wobs_eqb", 10)
-	sum := coqout.NewSummary("scenarios = chains of 3-7 versions over two real storage backends (badger/pathbadger in all four combinations; state roots chained across versions, IO roots rebuilt from the empty root with 1-2 hops per version); batches of 0-7 pattern instances (insert, overwrite same/other value, remove present/absent, remove-then-reinsert, insert-then-remove, empty value, repeated remove) over 16 keys with shared prefixes and 5 values incl. empty and 40 bytes; every pair of consecutive roots is one evaluation with 4-11 Apply attempts (corrupted logs first, the served log last); non-trivial = served log has >= 2 entries; distinct = distinct (start contents, batch) among those")
+	sum := coqout.NewSummary("scenarios = 3-7 versions (40% of them with 2-3 competing candidate roots from the same parent, half of the extra candidates value-variants of the first, queried before and after finalizing a random one; the rest linear) over two real storage backends (badger/pathbadger in all four combinations; state roots chained across versions, IO roots rebuilt from the empty root with 1-2 hops per version); batches of 0-7 pattern instances (insert, overwrite same/other value, remove present/absent, remove-then-reinsert, insert-then-remove, empty value, repeated remove) over 16 keys with shared prefixes and 5 values incl. empty and 40 bytes; every pair of consecutive roots is one evaluation with 4-11 Apply attempts (corrupted logs first, the served log last); non-trivial = served log has >= 2 entries; distinct = distinct (start contents, batch) among those")
 	var scs []Scenario
 	if *replay != "" {
 		b, err := os.ReadFile(*replay)
